@@ -41,6 +41,40 @@ CHECKS = {
               'independently for every execution, including the add-on project series; report N/A rule checked on the text.'),
         design_ref='DESIGN.md section 4 C04',
         note='IRR interpreted in the labelled unit (percent).'),
+    'C05': dict(
+        engine='xplore',
+        technique='bounded exhaustive exploration: complete product of layer layouts at reservoir level (real Model/read/Calculate) plus end-to-end reservoir-model x drawdown alphabets, against an independent layer-walk and restart-periodicity reference',
+        category='exploration',
+        text=('Bottom-hole temperature and the capped depth for every 1..3-segment layout (and 4-segment layouts within two deviations) over '
+              'depth/Tmax/Tsurf alphabets; start value, drawdown limit, restart periodicity and (models 3,4) monotonicity/upper bound on every '
+              'time step of every end-to-end execution.'),
+        design_ref='DESIGN.md section 4 C05',
+        note='Heuristic-triggering magnitudes excluded; monotonicity only where bottom-hole >= injection temperature.'),
+    'C07': dict(
+        engine='xplore',
+        technique='finite complete enumeration: every float/int parameter of every instantiated module x boundary/outside probes, per configuration family, on the real client and the real parameter reader',
+        category='exploration',
+        text=('Complete per family (14 families incl. SBT, SUTRA, AGS, CLGS, add-ons, S-DAC-GT, HIP-RA-X): outside values must be rejected by the '
+              'client with a message naming the parameter and no report; bounds must be read and held unaltered (a constant unit rescale is told '
+              'apart from a clamp by a third interior probe).'),
+        design_ref='DESIGN.md section 4 C07',
+        note='Boundary probes stop after parameter reading. List parameters excluded. Two documented configuration overrides exempted (evidence lists them).'),
+    'C15': dict(
+        engine='xplore',
+        technique='bounded exhaustive exploration of hydraulic configurations (both hydraulic models, pumped/self-flowing, overpressure x depletion x split reservoir) with a function-level sweep of the real friction routine at every hook',
+        category='exploration',
+        text=('Non-negativity and additivity of pumping power at every time step, closed-form overpressure depletion / injection inflation series, '
+              'and friction monotonicity over 8 ordered diameters x 7 flows (laminar and turbulent) evaluated with the real routine on the live model.'),
+        design_ref='DESIGN.md section 4 C15',
+        note='Hydrostatic pressure under the built-in correlation inferred from the initial pressure.'),
+    'C16': dict(
+        engine='xplore',
+        technique='exhaustive enumeration of the complete small integer domains of the two schedule builders (function level) plus end-to-end run pairs for incentives',
+        category='exploration',
+        text=('Every (lifetime, escalation start, start/end, rate, PTC duration, adjusted, inflation) tuple is compared element-wise with price_ref; '
+              'end-to-end price series at the hook for construction years {1,2,3,14}; ITC/grant/fee/relief arithmetic as exact relations between run pairs.'),
+        design_ref='DESIGN.md section 4 C16',
+        note='PTC added in the unit typed; PTC duration > lifetime is a rejected input on the pinned tree.'),
 }
 
 
